@@ -66,7 +66,7 @@ theorem enqueue_spec (g : Cfg) (s : S) (b : Bytes) (hp : AllPos s.wl) :
           pending g (s.wl ++ [Item.buf b 0]) = pending g s.wl ++ b ∧
           unsent (s.wl ++ [Item.buf b 0]) = unsent s.wl + b.length ∧
           AllPos (s.wl ++ [Item.buf b 0]) :=
-        ⟨by simp [pending_append, pending, Item.rest], by simp [unsent_append, unsent, Item.held],
+        ⟨by simp [pending, Item.rest], by simp [unsent, Item.held],
          allPos_append hp hnew⟩
       cases tail with
       | file fo fr =>
@@ -98,8 +98,8 @@ theorem enqueueFile_spec (g : Cfg) (s : S) (off rem : Nat) (hp : AllPos s.wl) (h
     unsent (enqueueFile s off rem).wl = unsent s.wl ∧
     AllPos (enqueueFile s off rem).wl ∧ (enqueueFile s off rem).wl ≠ [] := by
   refine ⟨?_, ?_, ?_, ?_⟩
-  · simp [enqueueFile, pushItem, pending_append, pending, Item.rest]
-  · simp [enqueueFile, pushItem, unsent_append, unsent, Item.held]
+  · simp [enqueueFile, pushItem, pending, Item.rest]
+  · simp [enqueueFile, pushItem, unsent, Item.held]
   · apply allPos_append hp
     intro t ht; simp at ht; subst ht; exact hr
   · simp [enqueueFile, pushItem]
@@ -208,7 +208,7 @@ theorem InvD.of_D {g : Cfg} {s t : S} (h : D t = D s) (hi : InvD g s) : InvD g t
   · rw [h2]; exact hi.nohang
 
 theorem invD_closeNow (g : Cfg) (s : S) (h : InvD g s) : InvD g (closeNow s) := by
-  constructor <;> simp [closeNow, h.pref, h.bound, h.nohang, allPos_nil]
+  constructor <;> simp [closeNow, h.pref, h.nohang, allPos_nil]
   exact h.bound
 
 /-- bytes `sent` go to the kernel (only possible on an empty queue), `rest` is queued, together they
